@@ -84,6 +84,7 @@ func runC08(c *core.Ctx) {
 	c.Rule("R6", "single actor: exported lifecycler methods reach a KV CAS only through the actor loop", 28)
 	c.Rule("R7", "published token lists are sorted", 12)
 	c.Rule("R10", "every waiting phase of both lifecyclers heartbeats from a ticker it creates itself with the configured period", 5)
+	c.Rule("R11", "the own entry is removed at one place per lifecycler: in stopping, on the actor itself, after the last heartbeat of the shutdown loop", 2)
 	c.Rule("R9", "token top-up: request (target − held) tokens and append them to the held list, so a fresh join ends with the configured count and inherited tokens are kept", 5)
 	c.Rule("R8", "tokens inherited from the ring are kept: a heartbeat re-publishes the ring entry's tokens when the entry exists, the remembered ones only when it is missing", 6)
 	pkg := c.Prog.Pkg("ring")
@@ -107,6 +108,7 @@ func runC08(c *core.Ctx) {
 	c09HeartbeatAs(c, "R8")
 	c09TopUpAs(c, "R9")
 	c08HeartbeatTickers(c)
+	c08Unregister(c)
 	c08SingleActor(c, pkg, fns)
 }
 
@@ -854,5 +856,78 @@ func c08HeartbeatTickers(c *core.Ctx) {
 			})
 		}
 		c.Check(found, "R10", "func="+name, fn.Pos(), fmt.Sprintf("the branch that calls %s receives from a ticker created in this function with the configured heartbeat period (channel: %s)", beat, detail), 1)
+	}
+}
+
+// c08Unregister (R11): a heartbeat that finds the own entry missing re-registers it with a fresh
+// registration time, so removing the entry anywhere a heartbeat can still follow publishes
+// "removed → LEAVING again". The removal helper of each lifecycler therefore has exactly one call
+// site: directly in stopping (not in a goroutine or closure), outside every loop, with every
+// heartbeat call of stopping inside a loop that has ended before.
+func c08Unregister(c *core.Ctx) {
+	pkg := c.Prog.Pkg("ring")
+	for _, e := range []struct{ owner, remove, beat string }{
+		{"(*Lifecycler).stopping", "(*Lifecycler).unregister", "updateConsul"},
+		{"(*BasicLifecycler).stopping", "(*BasicLifecycler).unregisterInstance", "heartbeat"},
+	} {
+		owner := an.FindFunc(pkg, e.owner)
+		if owner == nil {
+			c.Miss("R11", "func="+e.owner, "not found")
+			continue
+		}
+		c.Analysed(owner.String())
+		var sites []an.Call
+		for _, f := range an.Funcs(pkg) {
+			sites = append(sites, f.CallsTo(true, "ring", e.remove)...)
+		}
+		g := owner.Graph()
+		var where []string
+		ok := len(sites) == 1
+		for _, s := range sites {
+			where = append(where, an.FuncDisplay(s.In.Root().Obj)+map[bool]string{true: "", false: " (closure)"}[s.In == s.In.Root()])
+			if s.In != owner {
+				ok = false
+				continue
+			}
+			ub := g.Locate(s.Expr).B
+			inLoop := false
+			owner.InspectShallow(func(n ast.Node) bool {
+				switch l := n.(type) {
+				case *ast.ForStmt, *ast.RangeStmt:
+					if an.InNode(l, s.Expr) {
+						inLoop = true
+					}
+				}
+				return true
+			})
+			if inLoop || ub == nil {
+				ok = false
+				where = append(where, "inside a loop")
+				continue
+			}
+			// every heartbeat of stopping sits in a loop that is over when the removal runs
+			for _, call := range owner.Calls(true) {
+				fo := call.Func()
+				if fo == nil || !strings.HasSuffix(an.FuncDisplay(fo), ")."+e.beat) {
+					continue
+				}
+				ended := false
+				if call.In == owner {
+					owner.InspectShallow(func(n ast.Node) bool {
+						if l, isFor := n.(*ast.ForStmt); isFor && an.InNode(l, call.Expr) {
+							if _, _, done := g.LoopBlocks(l); done != nil && g.Dom(done, ub) {
+								ended = true
+							}
+						}
+						return true
+					})
+				}
+				if !ended {
+					ok = false
+					where = append(where, fmt.Sprintf("%s at line %d may run after the removal", e.beat, c.Prog.Fset.Position(call.Expr.Pos()).Line))
+				}
+			}
+		}
+		c.Check(ok, "R11", "func="+e.owner+":remove", owner.Pos(), fmt.Sprintf("%s has %d call site(s): %v — one, directly in stopping, after the heartbeat loop has ended", e.remove, len(sites), where), len(sites))
 	}
 }
